@@ -305,12 +305,10 @@ func c16ChannelsPrefixed(c *engine.Ctx, li *engine.LockInfo, rid string) {
 			// a channel parameter: stitch to the arguments of the static call sites (one level)
 			prm, ok := ch.(*ssa.Parameter)
 			if !ok {
-				if fvv, ok2 := ch.(*ssa.FreeVar); ok2 {
-					if b := engine.ClosureBinding(fvv); b != nil {
-						if pp, ok3 := b.(*ssa.Parameter); ok3 {
-							prm, ok = pp, true
-						}
-					}
+				// captured by a closure, possibly a nested one (go/ssa captures by reference: the parameter is spilled
+				// to a cell, the closure loads through its free variable): follow the bindings outwards
+				if pp, ok3 := capturedOrigin(ch).(*ssa.Parameter); ok3 {
+					prm, ok = pp, true
 				}
 			}
 			if !ok || prm == nil {
@@ -582,4 +580,58 @@ func allFuncsOfPkg(pk *ssa.Package) []*ssa.Function {
 		}
 	}
 	return out
+}
+
+// capturedOrigin resolves a value read through closure captures to what the enclosing function stored in the captured
+// cell, when that cell is written exactly once (a spilled parameter, a local assigned at its declaration).
+func capturedOrigin(v ssa.Value) ssa.Value {
+	for i := 0; i < 8; i++ {
+		switch x := v.(type) {
+		case *ssa.ChangeType:
+			v = x.X
+			continue
+		case *ssa.FreeVar:
+			b := engine.ClosureBinding(x)
+			if b == nil {
+				return v
+			}
+			v = b
+			continue
+		case *ssa.UnOp:
+			if x.Op != token.MUL {
+				return v
+			}
+			cell := x.X
+			for j := 0; j < 6; j++ {
+				fv, ok := cell.(*ssa.FreeVar)
+				if !ok {
+					break
+				}
+				b := engine.ClosureBinding(fv)
+				if b == nil {
+					return v
+				}
+				cell = b
+			}
+			al, ok := cell.(*ssa.Alloc)
+			if !ok {
+				return v
+			}
+			var stored ssa.Value
+			n := 0
+			for _, r := range *al.Referrers() {
+				if st, ok := r.(*ssa.Store); ok && st.Addr == ssa.Value(al) {
+					stored = st.Val
+					n++
+				}
+			}
+			if n != 1 {
+				return v
+			}
+			v = stored
+			continue
+		}
+		return v
+	}
+	return v
 }
